@@ -34,6 +34,19 @@ REFUSED = ['select * from int1.ts1 as t join mindsdb.m as m where t.ts > 1 order
            'select t.g from int1.ts1 as t join mindsdb.m as m where t.ts > 1 group by t.g having count(*) > 1',
            'select * from int1.ts1 as t join mindsdb.m as m where t.ts > 1 limit 2 offset 1',
            'select * from int1.ts1 as t join mindsdb.m as m where t.ts > 1 and t.other = 3']
+# a column that is neither the order column nor a partition column, in EVERY operand position of every allowed operator
+for _op in ('>', '>=', '=', '<', '<='):
+    REFUSED += ['select * from int1.ts1 as t join mindsdb.m as m where t.ts %s t.other' % _op,
+                'select * from int1.ts1 as t join mindsdb.m as m where t.other %s 1 and t.ts > 1' % _op,
+                'select * from int1.ts1 as t join mindsdb.m as m where t.ts > 1 and t.g %s t.other' % _op,
+                'select * from mindsdb.m as m join int1.ts1 as t where t.ts > 1 and 1 %s t.other' % _op]
+for _a, _b, _c in (('t.other', '1', '2'), ('t.ts', 't.other', '2'), ('t.ts', '1', 't.other'), ('t.g', '1', 't.other'), ('t.g', 't.other', '2')):
+    REFUSED += ['select * from int1.ts1 as t join mindsdb.m as m where %s between %s and %s' % (_a, _b, _c),
+                'select * from int1.ts1 as t join mindsdb.m as m where t.ts > 1 and %s between %s and %s' % (_a, _b, _c)] \
+        if _a != 't.ts' else ['select * from int1.ts1 as t join mindsdb.m as m where %s between %s and %s' % (_a, _b, _c)]
+REFUSED += ['select * from int1.ts1 as t join mindsdb.m as m where t.ts > 1 and t.g in (1, t.other)',
+            'select * from int1.ts1 as t join mindsdb.m as m where t.ts > 1 and t.other in (1, 2)',
+            'select * from int1.ts1 as t join mindsdb.m as m where t.ts > 1 and t.g in (t.other)']
 
 
 def catalog(window, gcols):
